@@ -21,7 +21,7 @@ func init() {
 		Run: runC15, Workers: 16, GOMAXPROCS: 4,
 		QuickTimeout: 5 * time.Minute, ThoroughTimeout: 30 * time.Minute,
 		QuickFloor: 2000, ThoroughFloor: 40000,
-		RequiredCounters: []string{"register_histories_linearizable", "swap_increments_conserved", "waiter_returns_judged", "write_between_sample_and_block", "gated_templates", "quiescent_judgements", "CContainerBlock"},
+		RequiredCounters: []string{"register_histories_linearizable", "swap_increments_conserved", "waiter_returns_judged", "write_between_sample_and_block", "gated_templates", "validator_reentry_templates", "ctx_identity_templates", "quiescent_judgements", "CContainerBlock"},
 		Rule: "cases are (a) short concurrent Get/Set/Swap histories checked by porcupine against a register model that includes the custom-equality no-op rule, (b) N x M concurrent SwapValue(+1) conservation runs, " +
 			"(c) 1-6 writers of unique values against 1-8 waiters of the four kinds with cancellations and error-channel deliveries racing the writes, judged per return and at quiescence, (d) a gated template parking the waiter between sample and select while the satisfying write lands; " +
 			"non-trivial = at least one write landed between a waiter's sample and its block (measured at the pre-select schedule point), or overlapping operations in a porcupine history; distinct = distinct event orders",
